@@ -21,9 +21,14 @@
     * `inlineP`: the expression with every variable replaced by the expression that built it - the
       reference reading ("the document depends only on the expression that built it").
 
+    * `inlineProg`: a whole program written out; `Expr.toP` / `Op.toP`: a tree expression read as a program
+      without variables (`Properties/C14.lean: runProg_conservative`).
+
   `_collect_all_variables` starts with `self.formatted_variables = {}`: `toAst` never READS `Rec.formatted`
   (it overwrites it).  That is what makes re-rendering history-free (`Proofs/C14Owned.lean`:
-  `execOp_formatted_irrelevant`, `history_free_owned`); a variant that merges into the old dict is not.
+  `toAst_sim`, `execOp_formatted_irrelevant`; `Proofs/C14Prog.lean`: `runPOp_sim`, `runProgFrom_last`;
+  `Properties/C14.lean`: `rerender_formatted_irrelevant`, `history_free_owned`); a variant that merges into the
+  old dict is not (seeded change C14-collect-variables-merges-into-stale-dict).
 -/
 import AriadneModel.Model.Builder
 
@@ -194,6 +199,35 @@ def POp.inline (op : POp) (defs : List (String × Expr)) : Option (Op × List (S
     match inlinePList defs1 op.fields with
     | none => none
     | some fs => some ({ opType := op.opType, name := op.name, fields := fs }, defs1)
+
+/-- a whole program written out: every operation with the objects of its variables rebuilt from fresh objects -/
+def inlineProgFrom : List POp → List (String × Expr) → Option (List Op)
+  | [], _ => some []
+  | op :: ops, defs =>
+    match op.inline defs with
+    | none => none
+    | some (o, defs1) =>
+      match inlineProgFrom ops defs1 with
+      | none => none
+      | some os => some (o :: os)
+
+def inlineProg (ops : List POp) : Option (List Op) := inlineProgFrom ops []
+
+/-! ### tree expressions are programs without variables -/
+
+mutual
+  def Expr.toP : Expr → PExpr
+    | .attr c a => .attr c a
+    | .call c a kw => .call c a kw
+    | .alias e al => .alias (Expr.toP e) al
+    | .fields e cs => .fields (Expr.toP e) (Expr.toPList cs)
+    | .on e ty cs => .on (Expr.toP e) ty (Expr.toPList cs)
+  def Expr.toPList : List Expr → List PExpr
+    | [] => []
+    | e :: es => Expr.toP e :: Expr.toPList es
+end
+
+def Op.toP (op : Op) : POp := { lets := [], opType := op.opType, name := op.name, fields := Expr.toPList op.fields }
 
 /-! ### syntactic predicates -/
 
